@@ -4,13 +4,6 @@ Require Import PonyV.Base.PyBase PonyV.Model.C07Base PonyV.Model.C07Fmt PonyV.Ge
 (* C07Corr: the checkers of the correspondence run; required here so that they are rebuilt with the cone whenever Gen changes *)
 Require PonyV.Model.C07Corr.
 
-(* SQLite time attributes: while the translated sql2py returns `dt.datetime.time()` (AttributeError inside a bare except),
-   EVERY stored time comes back as the raw string.  The flag is computed from the code translated on this run. *)
-Theorem C07_time_reload_refuted :
-  time_reloads_as_str = true -> forall p t, exists s, reload_time p t = RStr s.
-Proof. exact time_reload_refuted. Qed.
-Print Assumptions C07_time_reload_refuted.
-
 (* SQLite date attributes: date(999, 12, 31) is written as '999-12-31' (strftime does not pad the year) and read back as that string *)
 Theorem C07_date_below_1000_refuted :
   valid_date (mk_date 999 12 31) /\ reload_date (mk_date 999 12 31) = RStr [57; 57; 57; 45; 49; 50; 45; 51; 49].
